@@ -404,7 +404,11 @@ impl StrExt for str {
             // The word characters in ASCII compatible mode (with the `-u` flag) match the
             // definition in the spec: any character not in the set `[A-Za-z0-9_]`.
             let regex = format!(r"(?-u:^|\W|\b){}(?-u:\b|\W|$)", chunks.concat());
-            let re = Regex::new(&regex).expect("regex construction should succeed");
+            // The pattern comes from the network: a pattern that is too big to be compiled (the
+            // only way this can fail, all the literal parts are escaped) cannot match anything.
+            let Ok(re) = Regex::new(&regex) else {
+                return false;
+            };
             re.is_match(self.as_bytes())
         } else {
             match self.find(pattern) {
